@@ -627,4 +627,461 @@ theorem storeIter_eq_viewDir (snap buf : List KV) (lo hi : Bytes) (rev : Bool)
   rintro ⟨k, v⟩
   rw [storeIter_mem_iff snap buf lo hi rev hsnap hbuf hne, viewDir_mem_iff]
 
+
+/-! ## `KVUnionStore.Get` -/
+
+theorem unionGet_eq_viewGet (snap buf : List KV) (k : Bytes) : unionGet snap buf k = viewGet snap buf k := by
+  unfold unionGet viewGet
+  cases lookup buf k with
+  | some v => simp [visible, List.isEmpty_iff]
+  | none => cases lookup snap k <;> simp [visible, List.isEmpty_iff]
+
+/-! ## Go maps as sorted association lists -/
+
+theorem lookup_mapSet (k v : Bytes) (m : List KV) (k' : Bytes) :
+    lookup (mapSet k v m) k' = if k = k' then some v else lookup m k' := by
+  induction m with
+  | nil => simp [mapSet, lookup]
+  | cons h t ih =>
+    obtain ⟨k₀, v₀⟩ := h
+    simp only [mapSet]
+    split
+    · simp [lookup]
+    · rename_i e
+      have := (cmp_eq_iff k k₀).1 e; subst this
+      simp only [lookup]; split <;> simp_all
+    · rename_i e
+      have hne : k₀ ≠ k := cmp_lt_ne ((cmp_gt_iff _ _).1 e)
+      simp only [lookup, ih]
+      by_cases h1 : k₀ = k'
+      · subst h1; simp [hne.symm]
+      · simp [h1]
+
+theorem mem_mapSet {k v : Bytes} {m : List KV} {x : KV} : x ∈ mapSet k v m → x = (k, v) ∨ x ∈ m := by
+  induction m with
+  | nil => simp [mapSet]
+  | cons h t ih =>
+    obtain ⟨k₀, v₀⟩ := h
+    simp only [mapSet]
+    split
+    · simp
+    · simp; grind
+    · simp; grind
+
+theorem mapSet_sorted (k v : Bytes) (m : List KV) : IsMap m → IsMap (mapSet k v m) := by
+  unfold IsMap StrictlyOrdered
+  induction m with
+  | nil => simp [mapSet]
+  | cons h t ih =>
+    obtain ⟨k₀, v₀⟩ := h
+    intro hs
+    simp only [mapSet]
+    split
+    · rename_i e
+      rw [List.pairwise_cons]
+      refine ⟨fun z hz => ?_, hs⟩
+      rw [List.pairwise_cons] at hs
+      have hk : KeyBefore false (k, v) (k₀, v₀) := by simpa [KeyBefore] using e
+      rcases List.mem_cons.1 hz with rfl | hz
+      · exact hk
+      · exact KeyBefore.trans hk (hs.1 z hz)
+    · rename_i e
+      have := (cmp_eq_iff k k₀).1 e; subst this
+      rw [List.pairwise_cons] at hs ⊢
+      exact ⟨fun z hz => KeyBefore.congr_left (a := (k, v₀)) rfl (hs.1 z hz), hs.2⟩
+    · rename_i e
+      rw [List.pairwise_cons] at hs ⊢
+      refine ⟨fun z hz => ?_, ih hs.2⟩
+      rcases mem_mapSet hz with rfl | hz
+      · simpa [KeyBefore] using (cmp_gt_iff _ _).1 e
+      · exact hs.1 z hz
+
+theorem isMap_nil : IsMap [] := List.Pairwise.nil
+
+/-! ## batch get -/
+
+theorem lookup_bufBatchLoop (buf : List KV) (ks : List Bytes) (m : List KV) (k : Bytes) :
+    lookup (bufBatchLoop buf ks m) k =
+      if k ∈ ks ∧ (lookup buf k).isSome then lookup buf k else lookup m k := by
+  induction ks generalizing m with
+  | nil => simp [bufBatchLoop]
+  | cons x xs ih =>
+    simp only [bufBatchLoop]
+    cases hx : lookup buf x with
+    | some v =>
+      simp only [ih, lookup_mapSet]
+      by_cases h1 : k ∈ xs ∧ (lookup buf k).isSome
+      · simp [h1]
+      · by_cases h2 : x = k
+        · subst h2; simp [hx]
+        · have : ¬ (k ∈ x :: xs ∧ (lookup buf k).isSome) := by
+            simp only [List.mem_cons]; rintro ⟨h | h, h'⟩
+            · exact h2 h.symm
+            · exact h1 ⟨h, h'⟩
+          rw [if_neg h1, if_neg this, if_neg h2]
+    | none =>
+      simp only [ih]
+      by_cases h2 : x = k
+      · subst h2; simp [hx]
+      · have : (k ∈ x :: xs ∧ (lookup buf k).isSome) ↔ (k ∈ xs ∧ (lookup buf k).isSome) := by
+          simp only [List.mem_cons]; constructor
+          · rintro ⟨h | h, h'⟩
+            · exact absurd h.symm h2
+            · exact ⟨h, h'⟩
+          · rintro ⟨h, h'⟩; exact ⟨Or.inr h, h'⟩
+        simp only [this]
+
+theorem bufBatchLoop_sorted (buf : List KV) (ks : List Bytes) (m : List KV) : IsMap m → IsMap (bufBatchLoop buf ks m) := by
+  induction ks generalizing m with
+  | nil => simp [bufBatchLoop]
+  | cons x xs ih =>
+    intro h
+    simp only [bufBatchLoop]
+    cases lookup buf x with
+    | some v => exact ih _ (mapSet_sorted x v m h)
+    | none => exact ih _ h
+
+theorem lookup_bufBatchGet (buf : List KV) (keys : List Bytes) (k : Bytes) :
+    lookup (bufBatchGet buf keys) k = if k ∈ keys then lookup buf k else none := by
+  unfold bufBatchGet
+  cases buf with
+  | nil => simp [lookup]
+  | cons h t =>
+    simp only [List.isEmpty_cons, Bool.false_eq_true, if_false, lookup_bufBatchLoop]
+    by_cases hk : k ∈ keys
+    · cases hl : lookup (h :: t) k <;> simp [hk, lookup]
+    · simp [hk, lookup]
+
+theorem bufBatchGet_sorted (buf : List KV) (keys : List Bytes) : IsMap (bufBatchGet buf keys) := by
+  unfold bufBatchGet
+  split
+  · exact isMap_nil
+  · exact bufBatchLoop_sorted buf keys [] isMap_nil
+
+theorem lookup_snapBatchLoop (snap : List KV) (ks : List Bytes) (m : List KV) (k : Bytes) :
+    lookup (snapBatchLoop snap ks m) k =
+      if k ∈ ks ∧ (visible (lookup snap k)).isSome then visible (lookup snap k) else lookup m k := by
+  induction ks generalizing m with
+  | nil => simp [snapBatchLoop]
+  | cons x xs ih =>
+    simp only [snapBatchLoop]
+    cases hx : visible (lookup snap x) with
+    | some v =>
+      simp only [ih, lookup_mapSet]
+      by_cases h1 : k ∈ xs ∧ (visible (lookup snap k)).isSome
+      · simp [h1]
+      · by_cases h2 : x = k
+        · subst h2; simp [hx]
+        · have : ¬ (k ∈ x :: xs ∧ (visible (lookup snap k)).isSome) := by
+            simp only [List.mem_cons]; rintro ⟨h | h, h'⟩
+            · exact h2 h.symm
+            · exact h1 ⟨h, h'⟩
+          rw [if_neg h1, if_neg this, if_neg h2]
+    | none =>
+      simp only [ih]
+      by_cases h2 : x = k
+      · subst h2; simp [hx]
+      · have : (k ∈ x :: xs ∧ (visible (lookup snap k)).isSome) ↔ (k ∈ xs ∧ (visible (lookup snap k)).isSome) := by
+          simp only [List.mem_cons]; constructor
+          · rintro ⟨h | h, h'⟩
+            · exact absurd h.symm h2
+            · exact ⟨h, h'⟩
+          · rintro ⟨h, h'⟩; exact ⟨Or.inr h, h'⟩
+        simp only [this]
+
+theorem lookup_snapBatchGet (snap : List KV) (keys : List Bytes) (k : Bytes) :
+    lookup (snapBatchGet snap keys) k = if k ∈ keys then visible (lookup snap k) else none := by
+  unfold snapBatchGet
+  rw [lookup_snapBatchLoop]
+  by_cases hk : k ∈ keys
+  · cases hl : visible (lookup snap k) <;> simp [hk, lookup]
+  · simp [hk, lookup]
+
+theorem lookup_mergeInto (a m : List KV) (k : Bytes) :
+    lookup (mergeInto a m) k = match lookup a k with | some v => some v | none => lookup m k := by
+  induction a with
+  | nil => simp [mergeInto, lookup]
+  | cons h t ih =>
+    obtain ⟨k₀, v₀⟩ := h
+    simp only [mergeInto]
+    rw [lookup_mapSet, ih]
+    simp only [lookup]
+    split <;> simp
+
+theorem lookup_filter_visible (m : List KV) (hm : IsMap m) (k : Bytes) :
+    lookup (m.filter fun kv => !kv.2.isEmpty) k = visible (lookup m k) := by
+  unfold IsMap StrictlyOrdered at hm
+  induction m with
+  | nil => simp [lookup, visible]
+  | cons h t ih =>
+    obtain ⟨k₀, v₀⟩ := h
+    rw [List.pairwise_cons] at hm
+    simp only [List.filter_cons]
+    by_cases hk : k₀ = k
+    · subst hk
+      have hnone : lookup t k₀ = none := lookup_none_iff.2 fun kv hkv => (KeyBefore.ne (hm.1 kv hkv)).symm
+      by_cases hv : v₀ = []
+      · subst hv; simp [lookup, visible, ih hm.2, hnone]
+      · have : v₀.isEmpty = false := by simpa [List.isEmpty_iff] using hv
+        simp [this, lookup, visible, hv]
+    · by_cases hv : v₀.isEmpty
+      · simp [hv, lookup, hk, ih hm.2]
+      · simp [hv, lookup, hk, ih hm.2]
+
+theorem lookup_batchGet (snap buf : List KV) (keys : List Bytes) (k : Bytes) :
+    lookup (batchGet snap buf keys) k = if k ∈ keys then viewGet snap buf k else none := by
+  unfold batchGet
+  simp only
+  split
+  · rename_i hempty
+    rw [lookup_snapBatchGet]
+    by_cases hk : k ∈ keys
+    · have : lookup buf k = none := by
+        have := lookup_bufBatchGet buf keys k
+        rw [List.isEmpty_iff.1 hempty] at this
+        simpa [lookup, hk] using this.symm
+      simp [hk, viewGet, this]
+    · simp [hk]
+  · rw [lookup_mergeInto, lookup_snapBatchGet, lookup_filter_visible _ (bufBatchGet_sorted buf keys), lookup_bufBatchGet]
+    by_cases hk : k ∈ keys
+    · cases hl : lookup buf k with
+      | some v =>
+        have hb : lookup (bufBatchGet buf keys) k = some v := by
+          rw [lookup_bufBatchGet]; simp [hk, hl]
+        simp [List.mem_filter, hb, hk, viewGet, hl]
+      | none =>
+        have : (k ∈ keys ∧ (lookup (bufBatchGet buf keys) k).isNone = true) := by
+          rw [lookup_bufBatchGet]; simp [hk, hl]
+        simp only [List.mem_filter, this, if_true, viewGet, hl]
+        cases visible (lookup snap k) <;> simp [visible]
+    · have : ¬ (k ∈ keys ∧ (lookup (bufBatchGet buf keys) k).isNone = true) := fun h => hk h.1
+      simp [List.mem_filter, hk, visible]
+
+
+/-! ## the abstract write buffer -/
+
+theorem release_innermost (b : Buf) : b.release b.stages.length = some b.releaseTop := by
+  obtain ⟨cur, stages⟩ := b
+  cases stages <;> simp [Buf.release, Buf.releaseTop]
+
+theorem cleanup_innermost (b : Buf) : b.cleanup b.stages.length = some b.cleanupTop := by
+  obtain ⟨cur, stages⟩ := b
+  cases stages <;> simp [Buf.cleanup, Buf.cleanupTop]
+
+/-- every saved copy is a well formed map -/
+def Buf.WF (b : Buf) : Prop := IsMap b.cur ∧ ∀ s ∈ b.stages, IsMap s
+
+theorem wf_empty : Buf.empty.WF := ⟨isMap_nil, by simp [Buf.empty]⟩
+
+theorem wf_apply (b : Buf) (op : BOp) (h : b.WF) : (b.apply op).WF := by
+  obtain ⟨hc, hs⟩ := h
+  cases op with
+  | set k v =>
+    simp only [Buf.apply]; split
+    · exact ⟨hc, hs⟩
+    · exact ⟨mapSet_sorted k v _ hc, hs⟩
+  | del k => exact ⟨mapSet_sorted k [] _ hc, hs⟩
+  | staging =>
+    refine ⟨hc, fun s hs' => ?_⟩
+    simp only [Buf.apply, Buf.staging] at hs'
+    rcases List.mem_cons.1 hs' with rfl | h
+    · exact hc
+    · exact hs s h
+  | release =>
+    refine ⟨hc, fun s hs' => ?_⟩
+    simp only [Buf.apply, Buf.releaseTop] at hs'
+    exact hs s (List.mem_of_mem_tail hs')
+  | cleanup =>
+    simp only [Buf.apply, Buf.cleanupTop]
+    cases hst : b.stages with
+    | nil => simp only; exact ⟨hc, by simp [hst]⟩
+    | cons s r =>
+      simp only
+      rw [hst] at hs
+      exact ⟨hs s List.mem_cons_self, fun x hx => hs x (List.mem_cons_of_mem _ hx)⟩
+
+theorem wf_run (b : Buf) (ops : List BOp) (h : b.WF) : (b.run ops).WF := by
+  induction ops generalizing b with
+  | nil => exact h
+  | cons op r ih => exact ih _ (wf_apply b op h)
+
+/-! ### against the write logs -/
+
+theorem lookup_append (a b : List KV) (k : Bytes) :
+    lookup (a ++ b) k = match lookup a k with | some v => some v | none => lookup b k := by
+  induction a with
+  | nil => simp [lookup]
+  | cons h t ih =>
+    obtain ⟨k₀, v₀⟩ := h
+    simp only [List.cons_append, lookup]
+    split <;> simp [ih]
+
+/-- the content and every saved copy answer `lookup` like the write logs below them -/
+def Refines : List KV → List (List KV) → List (List KV) → Prop
+  | cur, [], [l] => ∀ k, lookup cur k = lookup l k
+  | cur, s :: ss, l :: ls => (∀ k, lookup cur k = lookup (l ++ ls.flatten) k) ∧ Refines s ss ls
+  | _, _, _ => False
+
+theorem refines_lookup {cur : List KV} {stages st : List (List KV)} (h : Refines cur stages st) (k : Bytes) :
+    lookup cur k = lookup st.flatten k := by
+  cases stages with
+  | nil =>
+    match st, h with
+    | [l], h => simpa using h k
+  | cons s ss =>
+    match st, h with
+    | l :: ls, h => simpa using h.1 k
+
+theorem refines_write (k v : Bytes) {cur : List KV} {stages : List (List KV)} {l : List KV} {ls : List (List KV)}
+    (h : Refines cur stages (l :: ls)) : Refines (mapSet k v cur) stages (((k, v) :: l) :: ls) := by
+  cases stages with
+  | nil =>
+    match ls, h with
+    | [], h =>
+      intro k'
+      simp only [lookup_mapSet, lookup, h k']
+  | cons s ss =>
+    refine ⟨fun k' => ?_, h.2⟩
+    simp only [lookup_mapSet, List.cons_append, lookup, h.1 k']
+
+theorem refines_apply (b : Buf) (op : BOp) (st : List (List KV)) (h : Refines b.cur b.stages st) :
+    Refines (b.apply op).cur (b.apply op).stages (stepLog st op) := by
+  obtain ⟨cur, stages⟩ := b
+  simp only at h
+  cases op with
+  | set k v =>
+    match st, h with
+    | l :: ls, h =>
+      simp only [Buf.apply, stepLog]
+      by_cases hv : v = []
+      · subst hv; simpa using h
+      · have : v.isEmpty = false := by simpa [List.isEmpty_iff] using hv
+        simp only [this, hv, if_false]
+        exact refines_write k v h
+    | [], h => cases stages <;> simp [Refines] at h
+  | del k =>
+    match st, h with
+    | l :: ls, h => exact refines_write k [] h
+    | [], h => cases stages <;> simp [Refines] at h
+  | staging =>
+    simp only [Buf.apply, Buf.staging, stepLog]
+    exact ⟨fun k => by simpa using refines_lookup h k, h⟩
+  | release =>
+    cases stages with
+    | nil =>
+      match st, h with
+      | [l], h => simpa [Buf.apply, Buf.releaseTop, stepLog] using h
+    | cons s ss =>
+      match st, h with
+      | [l], h => simp [Refines] at h
+      | l :: l₂ :: r, h =>
+        simp only [Buf.apply, Buf.releaseTop, stepLog, List.tail_cons]
+        obtain ⟨h1, h2⟩ := h
+        cases ss with
+        | nil =>
+          match r, h2 with
+          | [], h2 => intro k; simpa using h1 k
+        | cons s' ss' =>
+          exact ⟨fun k => by simpa [List.append_assoc] using h1 k, h2.2⟩
+  | cleanup =>
+    cases stages with
+    | nil =>
+      match st, h with
+      | [l], h => simpa [Buf.apply, Buf.cleanupTop, stepLog] using h
+    | cons s ss =>
+      match st, h with
+      | [l], h => simp [Refines] at h
+      | l :: l₂ :: r, h => exact h.2
+
+theorem refines_run (b : Buf) (ops : List BOp) (st : List (List KV)) (h : Refines b.cur b.stages st) :
+    Refines (b.run ops).cur (b.run ops).stages (ops.foldl stepLog st) := by
+  induction ops generalizing b st with
+  | nil => exact h
+  | cons op r ih => exact ih _ _ (refines_apply b op st h)
+
+theorem run_lookup (ops : List BOp) (k : Bytes) :
+    lookup (Buf.empty.run ops).cur k = lookup (liveWrites ops) k := by
+  have h0 : Refines Buf.empty.cur Buf.empty.stages [[]] := by intro k; rfl
+  exact refines_lookup (refines_run Buf.empty ops [[]] h0) k
+
+theorem viewGet_congr (snap : List KV) {b₁ b₂ : List KV} (h : ∀ k, lookup b₁ k = lookup b₂ k) (k : Bytes) :
+    viewGet snap b₁ k = viewGet snap b₂ k := by simp [viewGet, h k]
+
+theorem viewDir_congr (snap : List KV) {b₁ b₂ : List KV} (h : ∀ k, lookup b₁ k = lookup b₂ k)
+    (lo hi : Bytes) (rev : Bool) : viewDir snap b₁ lo hi rev = viewDir snap b₂ lo hi rev := by
+  refine ordered_ext rev _ _ (viewDir_sorted ..) (viewDir_sorted ..) ?_
+  rintro ⟨k, v⟩
+  rw [viewDir_mem_iff, viewDir_mem_iff, viewGet_congr snap h]
+
+/-! ### bracketed blocks leave the levels below them alone -/
+
+theorem run_bracket (ops : List BOp) : ∀ (d d' : Nat) (cur : List KV) (top base : List (List KV)),
+    top.length = d → netDepth d ops = some d' →
+    ∃ cur' top', (Buf.run ⟨cur, top ++ base⟩ ops) = ⟨cur', top' ++ base⟩ ∧ top'.length = d' := by
+  induction ops with
+  | nil => intro d d' cur top base hl hn; simp [netDepth] at hn; subst hn; exact ⟨cur, top, rfl, hl⟩
+  | cons op r ih =>
+    intro d d' cur top base hl hn
+    cases op with
+    | set k v =>
+      simp only [netDepth] at hn
+      simp only [Buf.run, List.foldl_cons, Buf.apply]
+      split
+      · exact ih d d' cur top base hl hn
+      · exact ih d d' _ top base hl hn
+    | del k =>
+      simp only [netDepth] at hn
+      exact ih d d' _ top base hl hn
+    | staging =>
+      simp only [netDepth] at hn
+      have := ih (d + 1) d' cur (cur :: top) base (by simp [hl]) hn
+      simpa [Buf.run, Buf.apply, Buf.staging] using this
+    | release =>
+      cases top with
+      | nil => simp at hl; subst hl; simp [netDepth] at hn
+      | cons t ts =>
+        simp at hl; subst hl
+        simp only [netDepth] at hn
+        have := ih ts.length d' cur ts base rfl hn
+        simpa [Buf.run, Buf.apply, Buf.releaseTop] using this
+    | cleanup =>
+      cases top with
+      | nil => simp at hl; subst hl; simp [netDepth] at hn
+      | cons t ts =>
+        simp at hl; subst hl
+        simp only [netDepth] at hn
+        have := ih ts.length d' t ts base rfl hn
+        simpa [Buf.run, Buf.apply, Buf.cleanupTop] using this
+
+theorem run_append (b : Buf) (o₁ o₂ : List BOp) : b.run (o₁ ++ o₂) = (b.run o₁).run o₂ := by
+  simp [Buf.run, List.foldl_append]
+
+theorem staging_block (b : Buf) (ops : List BOp) (h : Bracketed ops) :
+    ∃ cur', b.run (.staging :: ops) = ⟨cur', b.cur :: b.stages⟩ := by
+  obtain ⟨cur', top', h1, h2⟩ := run_bracket ops 0 0 b.cur [] (b.cur :: b.stages) rfl h
+  have : top' = [] := List.eq_nil_of_length_eq_zero h2
+  subst this
+  exact ⟨cur', by simpa [Buf.run, Buf.apply, Buf.staging] using h1⟩
+
+
+theorem run_writes_stages (b : Buf) (ops : List BOp) (h : WritesOnly ops) : (b.run ops).stages = b.stages := by
+  induction ops generalizing b with
+  | nil => rfl
+  | cons op r ih =>
+    have hop := h op List.mem_cons_self
+    have hr : WritesOnly r := fun o ho => h o (List.mem_cons_of_mem _ ho)
+    cases op with
+    | set k v =>
+      simp only [Buf.run, List.foldl_cons]
+      have := ih (b.apply (.set k v)) hr
+      simp only [Buf.run] at this
+      rw [this]; simp only [Buf.apply]; split <;> rfl
+    | del k =>
+      simp only [Buf.run, List.foldl_cons]
+      have := ih (b.apply (.del k)) hr
+      simp only [Buf.run] at this
+      rw [this]; rfl
+    | staging => simp [BOp.isWrite] at hop
+    | release => simp [BOp.isWrite] at hop
+    | cleanup => simp [BOp.isWrite] at hop
 end CGV.UnionIter
